@@ -280,7 +280,7 @@ func (w *world) populate(z *zm.Zone, level int, newGen bool) {
 	if newGen && sc.Alias != nil && level == sc.Victim {
 		for i, shape := range sc.Alias.Targets {
 			if shape != "deep-positive" {
-				z.AddMarked(fmt.Sprintf("t%d.%s", i, apex), dns.TypeA, sc.LongTTL)
+				z.AddMarked(fmt.Sprintf("tg%d.%s", i, apex), dns.TypeA, sc.LongTTL)
 			}
 		}
 	}
@@ -342,7 +342,7 @@ func (w *world) addSibling(srv [][]*authsim.Server) {
 	old := w.zones[sc.Victim]
 	for i, shape := range al.Targets {
 		a := aliasInfo{Name: fmt.Sprintf("al%d.%s", i, sibApex), Shape: shape, Level: sc.Victim}
-		a.Target = fmt.Sprintf("t%d.%s", i, w.victimApex)
+		a.Target = fmt.Sprintf("tg%d.%s", i, w.victimApex)
 		switch shape {
 		case "positive":
 			old.AddMarked(a.Target, dns.TypeA, sc.LongTTL)
